@@ -18,28 +18,42 @@ RULE = ("E1: (a) every child cardinality {1,2,3} x every parent-cardinality vect
         "position; (c) check_model on every BN on <=3 nodes with CPDs right or wrong in exactly one respect. "
         "non-trivial = distinct (shape, op, argument) cases with >=2 parents or a non-default style, and every defective model")
 BOUNDS = {"quick": "as RULE; styles: all 6 on shapes with <=2 parents, def+str on 3 parents",
-          "thorough": "all 6 styles on all shapes; check_model defects on all 25 3-node DAGs x 2 cardinality vectors"}
+          "thorough": "all 6 styles on all shapes; adds shapes with 4 parents (<=36 columns) and 4-state child / parents; check_model defects on all 25 3-node DAGs x 2 cardinality vectors and all 543 4-node DAGs"}
 EXHAUSTIVE = {"quick": True, "thorough": True}
 ASSUMPTIONS = ["CPD marginalize/reduce renormalise columns (documented)", "validity tolerance 0.01 (documented); knife-edge sums are not used"]
 
 STYLES = ["def", "str", "rot", "shift", "tuple", "mixed"]
 
 
-def shapes():
+def shapes(tier="quick"):
     out = []
     for cc in (1, 2, 3):
         for k in range(0, 4):
             for pc in product((1, 2, 3), repeat=k):
                 if int(np.prod(pc)) <= 18:
                     out.append((cc,) + pc)
+    if tier == "thorough":
+        # four parents (<=36 columns), a four-state child, a four-state parent
+        for cc in (2, 3):
+            for pc in product((1, 2, 3), repeat=4):
+                if int(np.prod(pc)) <= 36:
+                    out.append((cc,) + pc)
+        for k in range(0, 4):
+            for pc in product((2, 3, 4), repeat=k):
+                if int(np.prod(pc)) <= 24:
+                    out.append((4,) + pc)
+                    if 4 in pc:
+                        out.append((2,) + pc)
     return out
 
 
 def groups(tier, seed):
     out = []
-    for sh in shapes():
+    for sh in shapes(tier):
         for stl in STYLES:
             if tier == "quick" and len(sh) == 4 and stl not in ("def", "str"):
+                continue
+            if len(sh) == 5 and stl not in ("def", "str", "mixed"):
                 continue
             out.append({"part": "cpd", "shape": list(sh), "style": stl})
     for sh in ((2,), (2, 2), (3, 2, 2), (2, 3), (2, 2, 3)):
@@ -48,6 +62,9 @@ def groups(tier, seed):
         for e in all_dags(n):
             for cv in ([(2,) * n, (2, 3, 2)[:n]] if tier == "thorough" or n < 3 else [(2, 3, 2)]):
                 out.append({"part": "model", "n": n, "edges": [list(x) for x in e], "card": list(cv)})
+    if tier == "thorough":
+        for e in all_dags(4):
+            out.append({"part": "model", "n": 4, "edges": [list(x) for x in e], "card": [2, 3, 2, 2]})
     return out
 
 
